@@ -20,9 +20,9 @@ func init() {
 	Register(&PropDef{
 		ID:    "C08",
 		Title: "Observers only ever see a resource move forward in time",
-		Rule: "1-3 observations on one real connection (UDP, DTLS shim, TCP, TLS shim; block-wise on/off); a scripted notifier answers registrations with 2.05/2.03/4.04/5.00/2.05-without-Observe and sends notification streams with sequence numbers around 0, 2^23 and 2^24-1, permuted, duplicated, with inter-arrival times around 128 s (+-1 ms), for registered, cancelled and never-registered tokens; cancellation at any point; " +
+		Rule: "1-3 observations on one real connection (UDP, DTLS shim, TCP, TLS shim; block-wise on/off); a scripted notifier answers registrations with 2.05/2.03/4.04/5.00/2.05-without-Observe and sends notification streams with sequence numbers around 0, 2^23 and 2^24-1, permuted, duplicated, with inter-arrival times around 128 s (+-1 ms), for registered, cancelled and never-registered tokens; cancellation at any point; S-OBS/block-wise-notifications: multi-block notifications (RFC 7959 2.6) of a resource that keeps changing while the connection fetches the remaining blocks; " +
 			"non-trivial = at least one notification was delivered out of order, duplicated or across the 128 s window; distinct = distinct event-log hash",
-		Scenarios: []Scenario{{Name: "S-OBS/scripted-notifier", Weight: 1, Run: c08Run}},
+		Scenarios: []Scenario{{Name: "S-OBS/scripted-notifier", Weight: 4, Run: c08Run}, {Name: "S-OBS/block-wise-notifications", Weight: 1, Run: c08BlockwiseRun}},
 		Quick:     200000,
 		Thorough:  3000000,
 		Require:   []string{"notification.stale", "notification.exactly128s", "notification.afterCancelOrFailure", "notification.whileCancelInProgress"},
